@@ -415,6 +415,23 @@ def main(rec):
             libs.assign_names(lib2)
             ops2, meta2 = build_plan(lib2, common.rng("c18sel", lib2["name"]), thorough)
             cases.append({"lib": lib2, "ops": ops2, "meta": meta2})
+    # the documented name templates and format fields for the binding's internal names (metatable key, userdata type,
+    # registration tables, implementation names, local variable names) do not change what a Lua caller sees
+    TEMPLATES = [({"LUA_metadata_template": "{library}.{cxx_class}.mt"}, {}),
+                 ({"LUA_userdata_type_template": "{LUA_prefix}{cxx_class}_UD", "LUA_userdata_member_template": "obj",
+                   "LUA_class_reg_template": "{LUA_prefix}{cxx_class}_Methods", "LUA_module_reg_template": "{LUA_prefix}{library}_Functions"}, {}),
+                 ({"LUA_name_impl_template": "{LUA_prefix}impl_{C_name_scope}{underscore_name}"}, {"LUA_prefix": "lx_", "LUA_result": "lrv", "LUA_state_var": "LS"}),
+                 ({"LUA_metadata_template": "MT_{cxx_class}", "LUA_userdata_type_template": "UD_{cxx_class}"}, {"LUA_prefix": "q_"})]
+    with_cls = [c["lib"] for c in cases if any(f.get("cls") for f in c["lib"]["functions"]) and not c["lib"]["name"].endswith("sel")]
+    for ti, (topt, tfmt) in enumerate(TEMPLATES):
+        for base_lib in with_cls[:2] if not thorough else with_cls:
+            lib3 = _copy.deepcopy(base_lib)
+            lib3["name"] = "%st%d" % (base_lib["name"], ti)
+            lib3["options"] = dict(lib3["options"], **topt)
+            lib3["format"] = dict(lib3.get("format") or {}, **tfmt)
+            libs.assign_names(lib3)
+            ops3, meta3 = build_plan(lib3, common.rng("c18tmpl", lib3["name"]), thorough)
+            cases.append({"lib": lib3, "ops": ops3, "meta": meta3})
     res = pool.run_cases("vf.checks.c18", cases, func="run_library", timeout=1800)
     for c, rr in zip(cases, res):
         if "stats" not in rr:
